@@ -16,7 +16,7 @@ def run(ctx):
     traces, errors, srcs, ntests = p_v2judge.collect(ctx, nprog, explore_kw=kw)
     # ColangSM: specification-level exploration of all histories (bounded) with binding to the real interpreter
     from harness import colangsm
-    csm = colangsm.explore(ctx, 60 if ctx.quick else 400, 3 if ctx.quick else 4, 1)
+    csm = colangsm.explore(ctx, 40 if ctx.quick else 400, 3 if ctx.quick else 4, 1)
     ctx.log("ColangSM: %d programs in the fragment (%d outside), %d spec states / %d transitions, %d states replayed, drift %d, spec-level invariant violations %d" % (
         csm["programs"], csm["outside_fragment"], csm["states"], csm["transitions"], csm["compared"], csm["drift"], len(csm["spec_violations"])))
     for d in csm["drift_samples"][:3]:
